@@ -201,6 +201,24 @@ func load() (*symex.Engine, error) {
 	pats = append(pats, "verif/spec")
 	cfg := &packages.Config{Mode: packages.LoadAllSyntax, Dir: "/verif", BuildFlags: []string{"-tags=verif"},
 		Env: append(os.Environ(), "GOFLAGS=-mod=mod", "GOPROXY=off", "GOSUMDB=off", "GOTOOLCHAIN=local")}
+	if *flagRepo != "/repo" {
+		// a scratch copy of the repository (testing seeded changes without touching /repo): alternate module file
+		mod, err := os.ReadFile("/verif/go.mod")
+		if err != nil {
+			return nil, err
+		}
+		dir, err := os.MkdirTemp("", "vcheck-mod")
+		if err != nil {
+			return nil, err
+		}
+		alt := filepath.Join(dir, "alt.mod")
+		os.WriteFile(alt, []byte(strings.Replace(string(mod), "=> /repo", "=> "+*flagRepo, 1)), 0o644)
+		if sum, err := os.ReadFile("/verif/go.sum"); err == nil {
+			os.WriteFile(filepath.Join(dir, "alt.sum"), sum, 0o644)
+		}
+		cfg.BuildFlags = append(cfg.BuildFlags, "-modfile="+alt)
+		defer os.RemoveAll(dir)
+	}
 	if *flagMutate != "" {
 		parts := strings.SplitN(*flagMutate, "@@", 3)
 		if len(parts) != 3 {
@@ -266,6 +284,7 @@ type Finding struct {
 	Commit     string `json:"commit,omitempty"`
 	What       string `json:"what"`
 	Witness    string `json:"witness,omitempty"`
+	Always     bool   `json:"always,omitempty"` // a defect the contracts exclude by a stated assumption: reported on every run, matches no obligation
 }
 
 type findingsFile struct {
@@ -463,10 +482,15 @@ func runProperty(eng *symex.Engine, prop, tier string, t0 time.Time) int {
 	if len(sel) == 0 {
 		failed = append(failed, symex.Result{O: &symex.Oblig{Name: prop + "/no-obligations", Kind: "vacuity"}, Status: "vacuous", Output: "no obligation was generated for this property: contracts missing or unbound"})
 	}
+	for _, f := range findings {
+		if f.Status == "open" && f.Always && f.Property == prop {
+			fmt.Printf("KNOWN-FINDING: property=%s %s\n", prop, f.What)
+		}
+	}
 	for _, r := range failed {
 		isKnown := false
 		for _, f := range findings {
-			if f.Status == "open" && f.matches(prop, r.O.Name) {
+			if f.Status == "open" && !f.Always && f.matches(prop, r.O.Name) {
 				isKnown = true
 				if !known[f.Obligation] {
 					known[f.Obligation] = true
@@ -508,7 +532,12 @@ func runProperty(eng *symex.Engine, prop, tier string, t0 time.Time) int {
 	ev.Assumptions = append(ev.Assumptions, eng.Notes...)
 	data, _ := json.MarshalIndent(ev, "", " ")
 	os.MkdirAll("/verif/evidence", 0o755)
-	os.WriteFile("/verif/evidence/"+prop+".json", data, 0o644)
+	if *flagRepo == "/repo" {
+		os.WriteFile("/verif/evidence/"+prop+".json", data, 0o644)
+	} else {
+		// a scratch copy is being checked (seeded-change experiments): the registered evidence is left alone
+		os.WriteFile(filepath.Join(os.TempDir(), "vcheck-evidence-"+prop+".json"), data, 0o644)
+	}
 	fmt.Printf("property=%s tier=%s functions=%d obligations=%d discharged=%d violations=%d wall=%.1fs\n", prop, tier, len(reps), len(results), discharged, violations, wall)
 	if violations > 0 {
 		return 1
